@@ -48,6 +48,21 @@ TProbe == /\ Step("Probe") /\ pc >= 1 /\ fall # {}
              /\ acc' = IF E.ok THEN acc \cup {E.u} ELSE acc
              /\ pc' = i + 1
           /\ Same(<<main, fall, backoff, health, active>>)
+\* A probe of a silent upstream BLOCKS until its time-out: time passes (E.d ticks) while it is out, and the
+\* failure is stamped with the clock reading taken when it has failed -- Probe and Tick in one step, the
+\* stamp after the tick.  The guards are those of TProbe, in the state before the probe was sent.
+TProbeBlocking ==
+    /\ Step("ProbeBlocking") /\ pc >= 1 /\ fall # {} /\ ~E.ok
+    /\ LET i == Idx(E.u) IN
+       /\ i >= pc
+       /\ \A j \in pc..(i - 1) : InBackoff(main[j])
+       /\ ~InBackoff(E.u)
+       /\ health[E.u] # "up"
+       /\ fail' = [u \in MainSet |-> IF u = E.u THEN 0
+                                     ELSE IF fail[u] < 0 THEN fail[u]
+                                     ELSE IF fail[u] + E.d > backoff THEN backoff ELSE fail[u] + E.d]
+       /\ pc' = i + 1
+    /\ Same(<<main, fall, backoff, health, active, acc>>)
 TRefreshEnd == /\ Step("RefreshEnd") /\ pc >= 1
                /\ IF fall = {}
                   THEN /\ pc = 1 /\ ToSet(E.active) = MainSet /\ active' = active   \* NoFallbacksNeverDemotes
@@ -91,7 +106,7 @@ TExchange == /\ Step("Exchange")
 
 TraceInit == /\ l = 1 /\ main = <<>> /\ fall = {} /\ backoff = 1 /\ health = <<>> /\ fail = <<>>
              /\ active = {} /\ pc = 0 /\ acc = {}
-TraceNext == TReset \/ TSetHealth \/ TTick \/ TRefreshStart \/ TProbe \/ TRefreshEnd \/ TQuery \/ TExchange
+TraceNext == TReset \/ TSetHealth \/ TTick \/ TRefreshStart \/ TProbe \/ TProbeBlocking \/ TRefreshEnd \/ TQuery \/ TExchange
 TraceSpec == TraceInit /\ [][TraceNext]_vars
 \* outside a refresh exactly the upstreams whose last probe succeeded are active
 ActiveIffProbedOK == (pc = 0 /\ fall # {} /\ l > 1) => active = {u \in MainSet : fail[u] = -1}
